@@ -130,6 +130,12 @@ type gateCase struct {
 	msgs []gateMsg
 	tag  string // extra tag on every record (corpus, replay, exh)
 	tr   string // server transport spec ("": plain transport, and no `tr` record — old replays)
+	// hold: a schedule axis. The server's notification handlers (InitializedHandler, RootsListChangedHandler,
+	// ProgressNotificationHandler) park after they were entered and are let go only when the NEXT envelope has
+	// been written and the session is quiescent again: every envelope that follows a served notification
+	// arrives while that notification's handler is still running. Notifications are handled synchronously on
+	// the session's queue, so the answers, the handlers that ran and the session state are the sequential ones.
+	hold bool
 }
 
 // ---------------------------------------------------------------------------------------------
@@ -971,6 +977,9 @@ func (g *gateGen) serverCase(id string) gateCase {
 	}
 	// liveness probe: the session must still serve ping
 	c.msgs = append(c.msgs, g.msg("s", "ping", len(c.msgs), "legacy"))
+	// a quarter of the histories run with the notification handlers held (drawn last: the envelopes of a seed
+	// are the same with and without this axis)
+	c.hold = rng.Intn(100) < 25
 	return c
 }
 
@@ -1004,6 +1013,40 @@ type gateRec struct {
 	mw       []string
 	uh       []string
 	panicked bool
+	gate     chan struct{} // hold mode: notification handlers park on it (nil: they return at once)
+	parked   int           // handlers parked right now
+}
+
+// park is called by a notification handler after it recorded its invocation.
+func (r *gateRec) park() {
+	r.mu.Lock()
+	g := r.gate
+	if g != nil {
+		r.parked++
+	}
+	r.mu.Unlock()
+	if g != nil {
+		<-g
+		r.mu.Lock()
+		r.parked--
+		r.mu.Unlock()
+	}
+}
+
+// release lets the parked handlers go; handlers entered afterwards park on a fresh gate (hold) or not at all.
+func (r *gateRec) release(hold bool) (wasParked int) {
+	r.mu.Lock()
+	g := r.gate
+	wasParked = r.parked
+	r.gate = nil
+	if hold {
+		r.gate = make(chan struct{})
+	}
+	r.mu.Unlock()
+	if g != nil {
+		close(g)
+	}
+	return
 }
 
 func (r *gateRec) addMW(m string) { r.mu.Lock(); r.mw = append(r.mw, m); r.mu.Unlock() }
@@ -1042,9 +1085,9 @@ func gateNewServer(rec *gateRec) *Server {
 	logger := slog.New(slog.NewTextHandler(io.Discard, nil))
 	s := NewServer(&Implementation{Name: "verif-server", Version: "1"}, &ServerOptions{
 		Logger:                      logger,
-		InitializedHandler:          func(context.Context, *InitializedRequest) { rec.addUH("initialized") },
-		RootsListChangedHandler:     func(context.Context, *RootsListChangedRequest) { rec.addUH("roots-changed") },
-		ProgressNotificationHandler: func(context.Context, *ProgressNotificationServerRequest) { rec.addUH("progress") },
+		InitializedHandler:          func(context.Context, *InitializedRequest) { rec.addUH("initialized"); rec.park() },
+		RootsListChangedHandler:     func(context.Context, *RootsListChangedRequest) { rec.addUH("roots-changed"); rec.park() },
+		ProgressNotificationHandler: func(context.Context, *ProgressNotificationServerRequest) { rec.addUH("progress"); rec.park() },
 		CompletionHandler: func(context.Context, *CompleteRequest) (*CompleteResult, error) {
 			rec.addUH("complete")
 			return &CompleteResult{Completion: CompletionResultDetails{Values: []string{"v"}}}, nil
@@ -1366,13 +1409,28 @@ func gateRunCase(t *testing.T, c gateCase, emit func(i int, obs string), poisone
 			peer.takeResps()
 		}
 		stuck := false
+		if c.hold && ss != nil {
+			rec.release(true)
+			emit(-2, "ok")
+		}
+		defer rec.release(false)
 		for i, m := range c.msgs {
 			if stuck {
 				continue // nothing is recorded after a crash or a teardown
 			}
+			rec.mu.Lock()
+			heldBefore := rec.parked
+			rec.mu.Unlock()
 			wdone := make(chan error, 1)
 			go func() { wdone <- peer.write(m.raw) }()
 			synctest.Wait()
+			if c.hold && heldBefore > 0 {
+				// the envelope was written while an earlier notification's handler was still running: let that
+				// handler return (a handler this envelope enters parks on a fresh gate), and wait until the
+				// session is quiescent again
+				rec.release(true)
+				synctest.Wait()
+			}
 			select {
 			case <-wdone:
 			default:
@@ -1414,6 +1472,8 @@ func gateRunCase(t *testing.T, c gateCase, emit func(i int, obs string), poisone
 			emit(i, fmt.Sprintf("w=%s mw=%s uh=%s st=%s rv=%s", w, gateJoin(mw), gateJoin(uh), st, rv))
 		}
 		// tear down: everything in the bubble must exit
+		rec.release(false)
+		synctest.Wait()
 		if ss != nil {
 			go ss.Close()
 		}
@@ -1434,7 +1494,7 @@ func gateRunCase(t *testing.T, c gateCase, emit func(i int, obs string), poisone
 func gateWriteCases(path string, cases []gateCase) error {
 	var b strings.Builder
 	for _, c := range cases {
-		fmt.Fprintf(&b, "case %s tag=%s tr=%s\n", c.id, c.tag, c.tr)
+		fmt.Fprintf(&b, "case %s tag=%s tr=%s hold=%v\n", c.id, c.tag, c.tr, c.hold)
 		for _, m := range c.msgs {
 			b.WriteString(m.op() + "\t" + strings.Join(m.tags, ",") + "\n")
 		}
@@ -1457,6 +1517,8 @@ func gateReadCases(path string) ([]gateCase, error) {
 					c.tag = v
 				} else if v, ok := strings.CutPrefix(kv, "tr="); ok {
 					c.tr = v
+				} else if v, ok := strings.CutPrefix(kv, "hold="); ok {
+					c.hold = v == "true"
 				}
 			}
 			out = append(out, c)
@@ -1602,12 +1664,23 @@ func gateExecute(t *testing.T, out *verifOut, cases []gateCase) {
 			}
 			out.line(c.id, "tr "+c.tr, o, tags...)
 		}
+		if c.hold {
+			o, ok := obs(-2)
+			if !ok {
+				return
+			}
+			out.line(c.id, "hold", o, "cfg", "hold")
+		}
 		for i, m := range c.msgs {
 			o, ok := obs(i)
 			if !ok {
 				break
 			}
-			out.line(c.id, m.op(), o, gateTagsFor(m, o, c.tag)...)
+			tags := gateTagsFor(m, o, c.tag)
+			if c.hold {
+				tags = append(tags, "sched-hold")
+			}
+			out.line(c.id, m.op(), o, tags...)
 		}
 	}
 	n := 0
@@ -1688,6 +1761,13 @@ func gateReplayCases(path, id, tag string) []gateCase {
 				out = append(out, gateCase{id: id + "-0", tag: tag})
 			}
 			out[len(out)-1].tr = f[1]
+			continue
+		}
+		if ln == "hold" {
+			if len(out) == 0 {
+				out = append(out, gateCase{id: id + "-0", tag: tag})
+			}
+			out[len(out)-1].hold = true
 			continue
 		}
 		if m, ok := gateParseOp(ln); ok {
@@ -1858,6 +1938,16 @@ func gateCases(side string) []gateCase {
 			deep = 3
 		}
 		cases = append(cases, gateExhaustive(deep, "plain", "x", false)...)
+		// the same short histories with the notification handlers held (every envelope after a served
+		// notification races that notification's handler); thorough: <= 3 envelopes over the lifecycle letters
+		held := gateExhaustive(2, "plain", "xh", false)
+		if verifThorough() {
+			held = append(held, gateExhaustive(3, "plain", "xhc", true)...)
+		}
+		for i := range held {
+			held[i].hold = true
+		}
+		cases = append(cases, held...)
 		for _, tr := range [][2]string{{"ge:" + hxs("2026-07-28"), "xn"}, {"set:-", "xe"}, {gateTrSet("2025-03-26"), "xo"}, {"lt:" + hxs("2026-07-28"), "xl"}} {
 			cases = append(cases, gateExhaustive(2, tr[0], tr[1], false)...)
 			if verifThorough() {
